@@ -13,12 +13,12 @@ int main(void) {
   OI sgn = REFL ? -1 : 1;
   OI eox = tx + m * (ox * C_ - sgn * oy * S_), eoy = ty + m * (ox * S_ + sgn * oy * C_);
 #if KIND == 0
-  struct S_struct_gdstk__Label e; memset(&e, 0, sizeof e);
+  struct S_struct_gdstk__Label e = {0};
   VX(e.f2) = NUM_OF_INT(ox); VY(e.f2) = NUM_OF_INT(oy); e.f4 = NUM_OF_INT(r0); e.f5 = NUM_OF_INT(m0); e.f6 = (uint8_t)f0;
   _ZN5gdstk5Label9transformEdbdNS_4Vec2E(&e, NUM_OF_INT(m), REFL, rot, NUM_OF_INT(tx), NUM_OF_INT(ty));
   NUM gx = VX(e.f2), gy = VY(e.f2), grot = e.f4, gmag = e.f5; int gf = e.f6 & 1;
 #else
-  struct S_struct_gdstk__Reference e; memset(&e, 0, sizeof e);
+  struct S_struct_gdstk__Reference e = {0};
   VX(e.f2) = NUM_OF_INT(ox); VY(e.f2) = NUM_OF_INT(oy); e.f3 = NUM_OF_INT(r0); e.f4 = NUM_OF_INT(m0); e.f5 = (uint8_t)f0;
   _ZN5gdstk9Reference9transformEdbdNS_4Vec2E(&e, NUM_OF_INT(m), REFL, rot, NUM_OF_INT(tx), NUM_OF_INT(ty));
   NUM gx = VX(e.f2), gy = VY(e.f2), grot = e.f3, gmag = e.f4; int gf = e.f5 & 1;
